@@ -355,7 +355,7 @@ Section Release.
   Lemma restrict_permitted p a sp md out :
     restrict matches lname p a sp md = Ok out -> permitted p sp md a out.
   Proof.
-    unfold restrict, permitted, declared.
+    unfold restrict, restrict_with, permitted, declared.
     destruct md as [m|]; [destruct (m_req m) as [[rq op]|]|]; cbn [fst snd]; apply pfilter_permitted.
   Qed.
 
@@ -370,7 +370,8 @@ Section Release.
   Lemma apply_policy_permitted p identity sp md out :
     apply_policy matches lname p identity sp md = Ok out -> permitted p sp md identity out.
   Proof.
-    unfold apply_policy. destruct (restrict matches lname p identity sp md) as [f|] eqn:Er; [|discriminate]. cbn [bind].
+    unfold apply_policy, apply_policy_with. fold (restrict matches lname p identity sp md).
+    destruct (restrict matches lname p identity sp md) as [f|] eqn:Er; [|discriminate]. cbn [bind].
     intros H; inversion H; subst out. apply restrict_permitted in Er.
     eapply permitted_for_incl; [|exact Er]. intros e; apply narrow_sub.
   Qed.
@@ -383,12 +384,12 @@ Section Release.
     | Raised _ => True
     end.
 
-  Lemma setup_assertion_no_best_effort p identity sp md :
-    outcome_ok p sp md identity (setup_assertion matches lname p identity sp md false).
+  (* apply_policy raising is restrict raising (narrowing happens afterwards) *)
+  Lemma apply_policy_err p identity sp md e :
+    apply_policy matches lname p identity sp md = Err e -> restrict matches lname p identity sp md = Err e.
   Proof.
-    unfold setup_assertion. destruct (apply_policy matches lname p identity sp md) as [a|e] eqn:E.
-    - apply apply_policy_permitted in E; exact E.
-    - destruct (str_eqb e MissingValue); exact I.
+    unfold apply_policy, apply_policy_with. fold (restrict matches lname p identity sp md).
+    destruct (restrict matches lname p identity sp md); [discriminate|tauto].
   Qed.
 
   Lemma permitted_nil p sp md identity : permitted p sp md identity [].
@@ -413,35 +414,35 @@ Section Release.
     attribute_response matches lname None identity sp md = Asserted identity.
   Proof. destruct identity; reflexivity. Qed.
 
-  (* create_authn_response: the only way out of the permitted set is the swallowed MissingValue *)
-  Lemma authn_response_characterised p identity sp md a :
-    authn_response matches lname p identity sp md = Asserted a ->
+  (* HISTORY (before proposed_fix/C07-1): the only way out of the permitted set was the swallowed MissingValue *)
+  Lemma authn_response_before_fix_characterised p identity sp md a :
+    authn_response_before_fix matches lname p identity sp md = Asserted a ->
     permitted p sp md identity a \/
     (restrict matches lname p identity sp md = Err MissingValue /\ a = identity).
   Proof.
-    unfold authn_response, setup_assertion.
+    unfold authn_response_before_fix, setup_assertion_before_fix.
     destruct (apply_policy matches lname p identity sp md) as [x|e] eqn:E.
     - intros H; inversion H; subst. left. apply apply_policy_permitted in E; exact E.
     - destruct (str_eqb e MissingValue) eqn:Ee; [|discriminate].
       intros H; inversion H; subst. right. split; [|reflexivity].
-      apply str_eqb_eq in Ee; subst e. unfold apply_policy in E.
-      destruct (restrict matches lname p a sp md); [discriminate|exact E].
+      apply str_eqb_eq in Ee; subst e. apply apply_policy_err; exact E.
   Qed.
 
-  Lemma authn_response_partial p identity sp md :
+  Lemma authn_response_before_fix_partial p identity sp md :
     restrict matches lname p identity sp md <> Err MissingValue ->
-    outcome_ok p sp md identity (authn_response matches lname p identity sp md).
+    outcome_ok p sp md identity (authn_response_before_fix matches lname p identity sp md).
   Proof.
-    intros Hno. destruct (authn_response matches lname p identity sp md) as [a| |e] eqn:E; cbn; try exact I.
-    apply authn_response_characterised in E as [H|[H _]]; [exact H|contradiction].
+    intros Hno. destruct (authn_response_before_fix matches lname p identity sp md) as [a| |e] eqn:E; cbn; try exact I.
+    apply authn_response_before_fix_characterised in E as [H|[H _]]; [exact H|contradiction].
   Qed.
 
   (* the missing-requirement path itself: the whole identity, untouched *)
-  Lemma authn_response_missing_value p identity sp md :
+  Lemma authn_response_before_fix_missing_value p identity sp md :
     restrict matches lname p identity sp md = Err MissingValue ->
-    authn_response matches lname p identity sp md = Asserted identity.
+    authn_response_before_fix matches lname p identity sp md = Asserted identity.
   Proof.
-    intros H. unfold authn_response, setup_assertion, apply_policy. rewrite H. reflexivity.
+    intros H. unfold authn_response_before_fix, setup_assertion_before_fix, apply_policy, apply_policy_with.
+    fold (restrict matches lname p identity sp md). rewrite H. reflexivity.
   Qed.
 
   (* corner: categories configured, SP entitled to nothing, nothing declared, no restrictions:
@@ -515,6 +516,213 @@ Proof. vm_compute. reflexivity. Qed.
 Definition has_always_row (m : ecmap) : bool :=
   existsb (fun r => rawkey_eqb (fst r) (true, [[]]) && nonempty (fst (snd r))) m.
 
+(* ---------- what the category rules entitle an SP to, declaratively -------------- *)
+(* the key of a row is met by the SP's categories: the empty string key always, a string key when it is
+   one of the categories, a tuple key when all its members are *)
+Definition key_met (ecs : list str) (key : ec_rawkey) : Prop :=
+  match key with
+  | (true, [k]) => k = [] \/ In k ecs
+  | (true, _) => False
+  | (false, ks) => forall k, In k ks -> In k ecs
+  end.
+
+(* row entitles an SP with categories ecs, whose REQUIRED attributes have the lower-cased friendly
+   names req, to the (lower-cased) attribute name a *)
+Definition entitles (ecs req : list str) (row : ec_rawkey * (list str * bool)) (a : str) : Prop :=
+  In a (fst (snd row)) /\ key_met ecs (fst row) /\
+  (fst row = (true, [[]]) \/ (snd (snd row) = true -> In a req)).
+
+Lemma ec_attrs_sound ecs req row a : In a (ec_attrs ecs req row) -> entitles ecs req row a.
+Proof.
+  destruct row as [[b ks] [atlist onr]]. unfold ec_attrs, entitles. cbn [fst snd].
+  assert (Hsel : In a (if onr then filter (fun x => mem_str x req) atlist else atlist) ->
+                 In a atlist /\ (onr = true -> In a req)).
+  { destruct onr; [|intros H; split; [exact H|discriminate]].
+    intros H. apply filter_In in H as [H1 H2]. split; [exact H1|intros _; apply mem_str_In; exact H2]. }
+  destruct b.
+  - destruct ks as [|k ks']; [simpl; intros []|].
+    destruct ks' as [|k2 ks'']; [|destruct k; simpl; intros []].
+    destruct k as [|c k']; simpl.
+    + intros H. split; [exact H|]. split; [left; reflexivity|left; reflexivity].
+    + destruct (mem_str (c :: k') ecs) eqn:E; [|intros []].
+      intros H. apply Hsel in H as [H1 H2]. split; [exact H1|]. split; [right; apply mem_str_In; exact E|right; exact H2].
+  - destruct (forallb (fun k => mem_str k ecs) ks) eqn:E; [|intros []].
+    intros H. apply Hsel in H as [H1 H2]. split; [exact H1|]. split; [|right; exact H2].
+    intros k Hk. rewrite forallb_forall in E. apply mem_str_In. apply E; exact Hk.
+Qed.
+
+(* and nothing else: the entitlement is exactly what post_entity_categories computes *)
+Lemma ec_attrs_complete ecs req row a : entitles ecs req row a -> In a (ec_attrs ecs req row).
+Proof.
+  destruct row as [[b ks] [atlist onr]]. unfold ec_attrs, entitles. cbn [fst snd].
+  intros [H1 [H2 H3]].
+  assert (Hsel : (onr = true -> In a req) -> In a (if onr then filter (fun x => mem_str x req) atlist else atlist)).
+  { destruct onr; [|intros _; exact H1]. intros H. apply filter_In. split; [exact H1|apply mem_str_In; apply H; reflexivity]. }
+  destruct b.
+  - destruct ks as [|k ks']; [destruct H2|].
+    destruct ks' as [|k2 ks'']; [|destruct H2].
+    destruct k as [|c k']; simpl; [exact H1|].
+    destruct H2 as [H2|H2]; [discriminate|].
+    apply mem_str_In in H2. rewrite H2. apply Hsel. destruct H3 as [H3|H3]; [discriminate|exact H3].
+  - assert (E : forallb (fun k => mem_str k ecs) ks = true).
+    { apply forallb_forall. intros k Hk. apply mem_str_In. apply H2; exact Hk. }
+    rewrite E. apply Hsel. destruct H3 as [H3|H3]; [discriminate|exact H3].
+Qed.
+
+Lemma post_ec_spec maps md rq a :
+  In a (post_entity_categories maps md rq) <->
+  exists m em row, md = Some m /\ In em maps /\ In row em /\ entitles (m_ecs m) (req_friendly rq) row a.
+Proof.
+  unfold post_entity_categories. destruct md as [m|].
+  - split.
+    + intros H. apply in_flat_map in H as [em [Hem H]]. apply in_flat_map in H as [row [Hrow H]].
+      exists m, em, row. split; [reflexivity|]. split; [exact Hem|]. split; [exact Hrow|]. apply ec_attrs_sound; exact H.
+    + intros [m' [em [row [Hm [Hem [Hrow H]]]]]]. injection Hm as Hm; subst m'.
+      apply in_flat_map. exists em; split; [exact Hem|]. apply in_flat_map. exists row; split; [exact Hrow|].
+      apply ec_attrs_complete; exact H.
+  - split; [intros []|intros [m [em [row [Hm _]]]]; discriminate].
+Qed.
+
+(* ---- from the compiled maps back to the configured module names and the documented table ---- *)
+Lemma rawkey_eqb_eq a b : rawkey_eqb a b = true -> a = b.
+Proof.
+  destruct a as [ba la], b as [bb lb]. unfold rawkey_eqb. cbn [fst snd].
+  intros H. apply andb_true_iff in H as [H1 H2]. apply Bool.eqb_prop in H1. subst bb. f_equal.
+  revert lb H2. induction la as [|x la IH]; intros [|y lb] H2; simpl in H2; try discriminate; [reflexivity|].
+  apply andb_true_iff in H2 as [Hx Hr]. apply str_eqb_eq in Hx. subst y. f_equal. apply IH. exact Hr.
+Qed.
+
+Lemma set_eqb_In a b x : set_eqb a b = true -> In x a -> In x b.
+Proof.
+  unfold set_eqb. intros H Hx. apply andb_true_iff in H as [H _]. rewrite forallb_forall in H.
+  apply mem_str_In. apply H; exact Hx.
+Qed.
+
+Lemma entitles_transfer ecs req r r' a :
+  rawkey_eqb (fst r) (fst r') = true -> set_eqb (fst (snd r)) (fst (snd r')) = true ->
+  Bool.eqb (snd (snd r)) (snd (snd r')) = true ->
+  entitles ecs req r a -> entitles ecs req r' a.
+Proof.
+  intros Hk Hs Hb [H1 [H2 H3]]. apply rawkey_eqb_eq in Hk. apply Bool.eqb_prop in Hb.
+  unfold entitles. rewrite <- Hk, <- Hb. split; [eapply set_eqb_In; eassumption|]. split; assumption.
+Qed.
+
+Lemma compile_ec_In names : forall maps em, compile_ec names = Ok maps -> In em maps ->
+  exists n m, In n names /\ lookup n ec_modules = Some m /\ em = compile_module m.
+Proof.
+  induction names as [|n r IH]; intros maps em; cbn [compile_ec].
+  - intros H; injection H as H; subst maps. intros [].
+  - destruct (lookup n ec_modules) as [m|] eqn:El; [|discriminate].
+    destruct (compile_ec r) as [rest|] eqn:Er; cbn [bind]; [|discriminate].
+    intros H; injection H as H; subst maps. intros [Hin|Hin].
+    + exists n, m. split; [left; reflexivity|]. split; [exact El|symmetry; exact Hin].
+    + destruct (IH rest em eq_refl Hin) as [n' [m' [H1 [H2 H3]]]].
+      exists n', m'. split; [right; exact H1|]. split; assumption.
+Qed.
+
+Lemma documented_row n m row :
+  lookup n ec_modules = Some m -> In row (compile_module m) ->
+  exists dm row', lookup n documented_ec = Some dm /\ In row' dm /\
+    rawkey_eqb (fst row) (fst row') = true /\ set_eqb (fst (snd row)) (fst (snd row')) = true /\
+    Bool.eqb (snd (snd row)) (snd (snd row')) = true.
+Proof.
+  intros Hl Hrow. pose proof ec_tables_as_documented as T. unfold tables_equiv in T.
+  apply andb_true_iff in T as [T _]. rewrite forallb_forall in T.
+  assert (Hin : In (n, compile_module m) compiled_tables).
+  { unfold compiled_tables. apply lookup_In in Hl.
+    change (n, compile_module m) with ((fun e : str * ec_rawmodule => (fst e, compile_module (snd e))) (n, m)).
+    apply in_map; exact Hl. }
+  specialize (T _ Hin). cbn [fst snd] in T.
+  destruct (lookup n documented_ec) as [dm|]; [|discriminate].
+  unfold ecmap_equiv in T. apply andb_true_iff in T as [T _]. rewrite forallb_forall in T.
+  specialize (T _ Hrow). unfold row_in in T. apply existsb_exists in T as [row' [Hr' T]].
+  apply andb_true_iff in T as [T T3]. apply andb_true_iff in T as [T1 T2].
+  exists dm, row'. split; [reflexivity|]. split; [exact Hr'|]. split; [exact T1|]. split; assumption.
+Qed.
+
+(* the names a configured list of category modules lets through are names the DOCUMENTED table
+   entitles this SP to *)
+Lemma allowance_documented names maps md rq a :
+  compile_ec names = Ok maps -> In a (post_entity_categories maps md rq) ->
+  exists m n dm row, md = Some m /\ In n names /\ lookup n documented_ec = Some dm /\ In row dm /\
+    entitles (m_ecs m) (req_friendly rq) row a.
+Proof.
+  intros Hc Hin. apply post_ec_spec in Hin as [m [em [row [Hm [Hem [Hrow He]]]]]].
+  destruct (compile_ec_In _ _ _ Hc Hem) as [n [rm [Hn [Hl Heq]]]]. subst em.
+  destruct (documented_row _ _ _ Hl Hrow) as [dm [row' [Hd [Hr' [T1 [T2 T3]]]]]].
+  exists m, n, dm, row'. split; [exact Hm|]. split; [exact Hn|]. split; [exact Hd|]. split; [exact Hr'|].
+  eapply entitles_transfer; eassumption.
+Qed.
+
+(* which module names a compiled policy uses for sp: those of its own entry when that has the key,
+   else those of the default entry *)
+Definition configured_categories (raw : rawpolicy) (sp : str) (names : list str) : Prop :=
+  exists R who rs, raw = Some R /\ (who = sp \/ who = DEFAULT) /\ lookup who R = Some (Some rs) /\ r_ec rs = Some names.
+
+Lemma compile_entries_lookup who : forall R R' s',
+  compile_entries R = Ok R' -> lookup who R' = Some (Some s') ->
+  exists rs, lookup who R = Some (Some rs) /\ compile_spec rs = Ok s'.
+Proof.
+  induction R as [|[w [rs|]] R IH]; intros R' s'; cbn [compile_entries].
+  - intros H; injection H as H; subst R'. discriminate.
+  - destruct (compile_spec rs) as [cs|] eqn:Ec; cbn [bind]; [|discriminate].
+    destruct (compile_entries R) as [R1|] eqn:Er; cbn [bind]; [|discriminate].
+    intros H; injection H as H; subst R'. cbn [lookup].
+    destruct (str_eqb w who); [intros H; injection H as H; subst cs; exists rs; split; [reflexivity|exact Ec]|].
+    apply IH; reflexivity.
+  - destruct (compile_entries R) as [R1|] eqn:Er; cbn [bind]; [|discriminate].
+    intros H; injection H as H; subst R'. cbn [lookup].
+    destruct (str_eqb w who); [discriminate|]. apply IH; reflexivity.
+Qed.
+
+Lemma compile_spec_ec rs s' maps :
+  compile_spec rs = Ok s' -> s_ec s' = Some maps -> exists names, r_ec rs = Some names /\ compile_ec names = Ok maps.
+Proof.
+  unfold compile_spec. destruct (r_ec rs) as [names|].
+  - destruct (compile_ec names) as [m|] eqn:Ec; cbn [bind]; [|discriminate].
+    intros H; injection H as H; subst s'. cbn [s_ec]. intros H; injection H as H; subst m.
+    exists names; split; [reflexivity|exact Ec].
+  - cbn [bind]. intros H; injection H as H; subst s'. cbn [s_ec]. discriminate.
+Qed.
+
+Lemma pget_ec_configured raw p sp maps :
+  compile raw = Ok p -> pget s_ec p sp = Ok (Some maps) ->
+  exists names, configured_categories raw sp names /\ compile_ec names = Ok maps.
+Proof.
+  unfold compile. destruct raw as [[|x R]|]; try (intros H; injection H as H; subst p; discriminate).
+  set (R0 := x :: R). destruct (compile_entries R0) as [R'|] eqn:Ec; cbn [bind]; [|discriminate].
+  intros H; injection H as H; subst p. unfold pget.
+  destruct R' as [|y R']; [discriminate|]. set (R1 := y :: R') in *.
+  assert (Hfrom : forall who s', (who = sp \/ who = DEFAULT) -> lookup who R1 = Some (Some s') -> s_ec s' = Some maps ->
+            exists names, configured_categories (Some R0) sp names /\ compile_ec names = Ok maps).
+  { intros who s' Hw Hl Hs. destruct (compile_entries_lookup who _ _ _ Ec Hl) as [rs [Hl0 Hc]].
+    destruct (compile_spec_ec _ _ _ Hc Hs) as [names [Hn Hm]].
+    exists names. split; [|exact Hm]. exists R0, who, rs. split; [reflexivity|]. split; [exact Hw|]. split; assumption. }
+  destruct (lookup sp R1) as [[s|]|] eqn:Esp.
+  - destruct (s_ec s) as [v|] eqn:Es.
+    + intros H; injection H as H; subst v. eapply Hfrom; [left; reflexivity|exact Esp|exact Es].
+    + destruct (lookup DEFAULT R1) as [[s2|]|] eqn:Ed; try discriminate.
+      intros H; injection H as H. eapply Hfrom; [right; reflexivity|exact Ed|exact H].
+  - discriminate.
+  - destruct (lookup DEFAULT R1) as [[s2|]|] eqn:Ed; try discriminate.
+    intros H; injection H as H. eapply Hfrom; [right; reflexivity|exact Ed|exact H].
+Qed.
+
+(* the category clause against the documented table, for a policy compiled from its configuration *)
+Lemma get_ec_documented raw p sp md rq allow a :
+  compile raw = Ok p -> get_entity_categories p sp md rq = Ok allow -> In a allow ->
+  exists names m n dm row, configured_categories raw sp names /\ md = Some m /\ In n names /\
+    lookup n documented_ec = Some dm /\ In row dm /\ entitles (m_ecs m) (req_friendly rq) row a.
+Proof.
+  intros Hc. unfold get_entity_categories.
+  destruct (pget s_ec p sp) as [[maps|]|] eqn:Ep; cbn [bind]; try discriminate.
+  - intros H; injection H as H; subst allow. intros Hin.
+    destruct (pget_ec_configured _ _ _ _ Hc Ep) as [names [Hconf Hm]].
+    destruct (allowance_documented _ _ _ _ _ Hm Hin) as [m [n [dm [row [H1 [H2 [H3 [H4 H5]]]]]]]].
+    exists names, m, n, dm, row. repeat (split; [assumption|]). exact H5.
+  - intros H; injection H as H; subst allow. intros [].
+Qed.
+
 (* ---------- the suggested repair of Server.setup_assertion ------------------- *)
 Lemma pget_err {A} (sel : spec -> option A) p sp e : pget sel p sp = Err e -> e = TypeError.
 Proof.
@@ -563,7 +771,10 @@ Proof.
   rewrite H in Hin. destruct Hin.
 Qed.
 
-Section Fix.
+Lemma KeyError_not_MissingValue : KeyError <> MissingValue.
+Proof. cbv. discriminate. Qed.
+
+Section Outcomes.
   Variable matches : str -> str -> bool.
   Variable lname : str -> str -> option str.
 
@@ -584,51 +795,181 @@ Section Fix.
       injection Eec as Eec. apply pget_err in Ep. apply TypeError_not_MissingValue. congruence.
   Qed.
 
+  (* Policy.restrict in terms of the SP's declarations as the store reports them *)
+  Lemma restrict_with_declared be p a sp md :
+    restrict_with matches lname be p a sp md =
+    if be then pfilter matches lname p a sp md [] (fst (declared md) ++ snd (declared md))
+    else pfilter matches lname p a sp md (fst (declared md)) (snd (declared md)).
+  Proof.
+    unfold restrict_with, declared.
+    destruct md as [m|]; [destruct (m_req m) as [[rq op]|]|]; destruct be; reflexivity.
+  Qed.
+
   Lemma restrict_missing_ec_empty p a sp md :
     restrict matches lname p a sp md = Err MissingValue ->
     get_entity_categories p sp md (fst (declared md)) = Ok [].
   Proof.
-    unfold restrict, declared. destruct md as [m|]; [destruct (m_req m) as [[rq op]|]|]; cbn [fst];
-      apply pfilter_missing_ec_empty.
+    unfold restrict. rewrite restrict_with_declared. apply pfilter_missing_ec_empty.
   Qed.
 
-  (* SUGGESTED FIX of Server.setup_assertion (not the code that exists): on the swallowed
-     MissingValue re-run the policy with the SP's requirements treated as wishes *)
-  Definition setup_assertion_fixed (p : cpolicy) (identity : ava) (sp : str) (md : option mdview)
-             (best_effort : bool) : outcome :=
-    match apply_policy matches lname p identity sp md with
-    | Ok a => Asserted a
-    | Err e =>
-        if str_eqb e MissingValue then
-          if best_effort then
-            match pfilter matches lname p identity sp md [] (fst (declared md) ++ snd (declared md)) with
-            | Ok f => Asserted (narrow identity f)
-            | Err e' => Raised e'
-            end
-          else ErrorResponse
-        else Raised e
-    end.
+  (* ---- wishes never raise MissingValue ------------------------------------ *)
+  Lemma filter_values_wish vals vlist : exists r, filter_values vals vlist false = Ok r.
+  Proof. unfold filter_values. destruct vlist; eexists; reflexivity. Qed.
 
-  Lemma setup_assertion_fixed_every_outcome p identity sp md b :
-    outcome_ok matches lname p sp md identity (setup_assertion_fixed p identity sp md b).
+  Lemma apply_avr_wish_err d fn a res e : apply_avr d fn a res false = Err e -> e = KeyError.
   Proof.
-    unfold setup_assertion_fixed.
+    unfold apply_avr. destruct (lookup fn a) as [vals|]; [|intros H; injection H as H; congruence].
+    destruct (filter_values_wish vals (decl_values d)) as [r ->]. cbn [bind]. discriminate.
+  Qed.
+
+  Lemma foa_loop_wish_err fail ds a : forall res e,
+    foa_loop lname false fail ds a res = Err e -> e = KeyError.
+  Proof.
+    induction ds as [|d r IH]; intros res e; cbn [foa_loop]; [discriminate|].
+    destruct (match_attr_name lname d a) as [[|c fn]|].
+    - cbn [andb]. apply IH.
+    - destruct (apply_avr d (c :: fn) a res false) as [res1|e1] eqn:Ea; cbn [bind].
+      + apply IH.
+      + intros H; injection H as H; subst e1. eapply apply_avr_wish_err; exact Ea.
+    - cbn [andb]. apply IH.
+  Qed.
+
+  Lemma pfilter_wishes_err p a sp md op e :
+    pfilter matches lname p a sp md [] op = Err e -> e = TypeError \/ e = KeyError.
+  Proof.
+    unfold pfilter.
+    destruct (get_entity_categories p sp md []) as [ecr|e0] eqn:Eec; cbn [bind].
+    2:{ intros H; injection H as H; subst e0. left. unfold get_entity_categories in Eec.
+        destruct (pget s_ec p sp) as [v|e1] eqn:Ep; cbn [bind] in Eec; [discriminate|].
+        injection Eec as Eec; subst e1. eapply pget_err; exact Ep. }
+    assert (Har : forall x cur, (do ar <- get_attribute_restrictions p sp; Ok (favs matches cur ar)) = Err x -> x = TypeError).
+    { intros x cur. unfold get_attribute_restrictions, pget_ar.
+      destruct (pget s_ar p sp) as [v|e1] eqn:Ep; cbn [bind]; [discriminate|].
+      intros H; injection H as H; subst e1. eapply pget_err; exact Ep. }
+    destruct ecr as [|e0 ecr].
+    - cbn [nonempty orb]. destruct (nonempty op).
+      + unfold get_fail_on_missing_requested.
+        destruct (pget s_fail p sp) as [v|e1] eqn:Ep; cbn [bind].
+        2:{ intros H; injection H as H; subst e1. left. eapply pget_err; exact Ep. }
+        unfold filter_on_attributes. cbn [foa_loop bind].
+        destruct (foa_loop lname false (match v with Some b => b | None => true end) op a []) as [r|e1] eqn:Ef; cbn [bind].
+        * intros H. left. eapply Har; exact H.
+        * intros H; injection H as H; subst e1. right. eapply foa_loop_wish_err; exact Ef.
+      + cbn [bind]. intros H. left. eapply Har; exact H.
+    - cbn [bind]. intros H. left. eapply Har; exact H.
+  Qed.
+
+  Lemma best_effort_never_missing p a sp md :
+    restrict_with matches lname true p a sp md <> Err MissingValue.
+  Proof.
+    rewrite restrict_with_declared. intros H. apply pfilter_wishes_err in H as [H|H].
+    - apply TypeError_not_MissingValue; congruence.
+    - apply KeyError_not_MissingValue; congruence.
+  Qed.
+
+  (* ---- the best-effort assertion is a policy-filtered one ------------------- *)
+  Lemma best_effort_permitted p identity sp md out :
+    restrict matches lname p identity sp md = Err MissingValue ->
+    apply_policy_with matches lname true p identity sp md = Ok out ->
+    permitted matches lname p sp md identity out.
+  Proof.
+    intros Hr. unfold apply_policy_with. rewrite restrict_with_declared.
+    apply restrict_missing_ec_empty in Hr.
+    pose proof (get_ec_empty_mono _ _ _ _ Hr) as H0.
+    set (rq := fst (declared md)) in *. set (op := snd (declared md)) in *.
+    destruct (pfilter matches lname p identity sp md [] (rq ++ op)) as [f|e'] eqn:Ef; [|discriminate]. cbn [bind].
+    intros H; injection H as H; subst out.
+    apply pfilter_permitted in Ef.
+    assert (Hn : permitted_for matches lname p sp md [] (rq ++ op) identity (narrow identity f)).
+    { eapply permitted_for_incl; [|exact Ef]. intros x; apply narrow_sub. }
+    destruct Hn as [H1 [H2 [H3 H4]]].
+    unfold permitted. fold rq op. split; [exact H1|]. split; [exact H2|]. split.
+    - intros allow Ha Hne. rewrite Hr in Ha. injection Ha as Ha. subst allow. exfalso; apply Hne; reflexivity.
+    - intros _ Hne n vs Hin. exact (H4 H0 Hne n vs Hin).
+  Qed.
+
+  (* Server.setup_assertion, both values of best_effort *)
+  Lemma setup_assertion_every_outcome p identity sp md b :
+    outcome_ok matches lname p sp md identity (setup_assertion matches lname p identity sp md b).
+  Proof.
+    unfold setup_assertion.
     destruct (apply_policy matches lname p identity sp md) as [a|e] eqn:E.
     - apply apply_policy_permitted in E; exact E.
     - destruct (str_eqb e MissingValue) eqn:Ee; [|exact I]. destruct b; [|exact I].
-      apply str_eqb_eq in Ee; subst e.
-      assert (Hr : restrict matches lname p identity sp md = Err MissingValue).
-      { unfold apply_policy in E. destruct (restrict matches lname p identity sp md); [discriminate|exact E]. }
-      apply restrict_missing_ec_empty in Hr.
-      pose proof (get_ec_empty_mono _ _ _ _ Hr) as H0.
-      set (rq := fst (declared md)) in *. set (op := snd (declared md)) in *.
-      destruct (pfilter matches lname p identity sp md [] (rq ++ op)) as [f|e'] eqn:Ef; [|exact I].
-      apply pfilter_permitted in Ef.
-      assert (Hn : permitted_for matches lname p sp md [] (rq ++ op) identity (narrow identity f)).
-      { eapply permitted_for_incl; [|exact Ef]. intros x; apply narrow_sub. }
-      destruct Hn as [H1 [H2 [H3 H4]]].
-      unfold outcome_ok, permitted. fold rq op. split; [exact H1|]. split; [exact H2|]. split.
-      + intros allow Ha Hne. rewrite Hr in Ha. injection Ha as Ha. subst allow. exfalso; apply Hne; reflexivity.
-      + intros _ Hne n vs Hin. exact (H4 H0 Hne n vs Hin).
+      apply str_eqb_eq in Ee; subst e. apply apply_policy_err in E.
+      destruct (apply_policy_with matches lname true p identity sp md) as [a|e'] eqn:E2; [|exact I].
+      eapply best_effort_permitted; eassumption.
   Qed.
-End Fix.
+
+  Lemma authn_response_every_outcome p identity sp md :
+    outcome_ok matches lname p sp md identity (authn_response matches lname p identity sp md).
+  Proof. apply setup_assertion_every_outcome. Qed.
+
+  (* create_authn_response never answers with an error response because of MissingValue,
+     and MissingValue never leaves it *)
+  Lemma authn_response_answers p identity sp md :
+    authn_response matches lname p identity sp md <> ErrorResponse /\
+    authn_response matches lname p identity sp md <> Raised MissingValue.
+  Proof.
+    unfold authn_response, setup_assertion.
+    destruct (apply_policy matches lname p identity sp md) as [a|e] eqn:E; [split; discriminate|].
+    destruct (str_eqb e MissingValue) eqn:Ee.
+    - destruct (apply_policy_with matches lname true p identity sp md) as [a|e'] eqn:E2; [split; discriminate|].
+      split; [discriminate|]. intros H; injection H as H; subst e'.
+      unfold apply_policy_with in E2.
+      destruct (restrict_with matches lname true p identity sp md) as [f|e''] eqn:E3; cbn [bind] in E2; [discriminate|].
+      injection E2 as E2; subst e''. eapply best_effort_never_missing; exact E3.
+    - split; [discriminate|]. intros H; injection H as H; subst e.
+      rewrite str_eqb_refl in Ee. discriminate.
+  Qed.
+
+  (* what the best-effort assertion is: the identity narrowed by Policy.filter with wishes only *)
+  Lemma authn_response_missing_value p identity sp md :
+    restrict matches lname p identity sp md = Err MissingValue ->
+    authn_response matches lname p identity sp md =
+    match pfilter matches lname p identity sp md [] (fst (declared md) ++ snd (declared md)) with
+    | Ok f => Asserted (narrow identity f)
+    | Err e => Raised e
+    end.
+  Proof.
+    intros H. unfold authn_response, setup_assertion, apply_policy, apply_policy_with.
+    fold (restrict matches lname p identity sp md). rewrite H. cbn [bind]. rewrite str_eqb_refl.
+    rewrite restrict_with_declared.
+    destruct (pfilter matches lname p identity sp md [] (fst (declared md) ++ snd (declared md))); reflexivity.
+  Qed.
+
+  Lemma setup_assertion_agrees_when_met p identity sp md b :
+    restrict matches lname p identity sp md <> Err MissingValue ->
+    setup_assertion matches lname p identity sp md b = setup_assertion_before_fix matches lname p identity sp md b.
+  Proof.
+    intros Hno. unfold setup_assertion, setup_assertion_before_fix.
+    destruct (apply_policy matches lname p identity sp md) as [a|e] eqn:E; [reflexivity|].
+    destruct (str_eqb e MissingValue) eqn:Ee; [|reflexivity].
+    apply str_eqb_eq in Ee; subst e. apply apply_policy_err in E. contradiction.
+  Qed.
+
+  (* the category clause of an assertion, read against the documented table *)
+  Lemma permitted_documented raw p sp md identity a :
+    compile raw = Ok p -> permitted matches lname p sp md identity a ->
+    forall allow, get_entity_categories p sp md (fst (declared md)) = Ok allow -> allow <> [] ->
+    forall n vs, In (n, vs) a ->
+      exists names m mn dm row, configured_categories raw sp names /\ md = Some m /\ In mn names /\
+        lookup mn documented_ec = Some dm /\ In row dm /\
+        entitles (m_ecs m) (req_friendly (fst (declared md))) row (lower n).
+  Proof.
+    intros Hc [_ [_ [H3 _]]] allow Ha Hne n vs Hin.
+    eapply get_ec_documented; [exact Hc|exact Ha|]. eapply H3; eassumption.
+  Qed.
+
+  Lemma authn_response_documented raw p identity sp md a :
+    compile raw = Ok p -> authn_response matches lname p identity sp md = Asserted a ->
+    forall allow, get_entity_categories p sp md (fst (declared md)) = Ok allow -> allow <> [] ->
+    forall n vs, In (n, vs) a ->
+      exists names m mn dm row, configured_categories raw sp names /\ md = Some m /\ In mn names /\
+        lookup mn documented_ec = Some dm /\ In row dm /\
+        entitles (m_ecs m) (req_friendly (fst (declared md))) row (lower n).
+  Proof.
+    intros Hc Ha. pose proof (authn_response_every_outcome p identity sp md) as H. rewrite Ha in H.
+    eapply permitted_documented; eassumption.
+  Qed.
+End Outcomes.
